@@ -63,10 +63,19 @@ fn build<const D: usize>(id: &str, rng: &mut Rng, out: &mut Out, periodic: bool)
         if !base.contains(&p) { base.push(p); }
     }
     let mut vs: Vec<Vertex<f64, i32, D>> = Vec::new();
+    let mut nearface = false;
     for (i, b) in base.iter().enumerate() {
         let mut p = *b;
         for a in 0..D {
             if rng.chance(1, 2) { p[a] += dom[a] * (rng.range(-3, 3) as f64); }
+        }
+        // just below an upper face of the box: the representative -t*L wraps to L - t*L, within reach
+        // of rounding and of the periodic mode's grid snapping / nudging
+        if rng.chance(1, if periodic { 3 } else { 8 }) {
+            nearface = true;
+            let a = rng.below(D as u64) as usize;
+            let t = [1e-12, 3e-12, 2f64.powi(-40), 1e-16, 2.3e-10][rng.below(5) as usize];
+            p[a] = -t * dom[a] + dom[a] * (rng.range(-1, 1) as f64);
         }
         // a few nasty representatives
         if rng.chance(1, 8) { let a = rng.below(D as u64) as usize; if b[a] == 0.0 { p[a] = [-1e-20, dom[a], -0.0, -5e-324][rng.below(4) as usize]; } }
@@ -78,7 +87,7 @@ fn build<const D: usize>(id: &str, rng: &mut Rng, out: &mut Out, periodic: bool)
         b.build::<i32>().map_err(|e| tri::err_kind(&format!("{e:?}")))
     });
     let mut ids = Ids::default();
-    out.case(id, "torus", &format!("D={D} periodic={} expect={} sphere=1 prov=0", periodic as u8, if periodic { "none" } else { "valid123" }));
+    out.case(id, "torus", &format!("D={D} periodic={} expect={} sphere=1 prov=0 nearface={}", periodic as u8, if periodic { "none" } else { "valid123" }, nearface as u8));
     out.line(&format!("dom {}", hxs(&dom)));
     for (i, v) in vs.iter().enumerate() {
         let vid = ids.id(v.uuid());
